@@ -115,6 +115,10 @@ def finish(ctx: Ctx, level_explanation: str, out=sys.stdout) -> int:
         print(f"  {f.loc}: [{f.rule}] {f.message}  <{f.key}>", file=out)
         print(f"VIOLATION property={ctx.prop} replay={rp}", file=out)
     floor_fail = [(r, n, m) for r, n, m in ctx.floors if n < m]
+    # an instance count that drops because the code was restructured, while the same rule reports a definite failure that belongs to another
+    # property's scope, is not an analyser problem for THIS property: the owning property reports the violation
+    oos_rules = {o["key"].split("|")[0] for o in ctx.out_of_scope}
+    floor_fail = [(r, n, m) for r, n, m in floor_fail if r.split(":")[0] not in oos_rules]
     n_obl = len(ctx.obligations)
     n_dis = sum(1 for o in ctx.obligations if o[2])
     distinct_nt = len({(o[0], o[1]) for o in ctx.obligations if o[3]})
